@@ -124,6 +124,9 @@ pub struct Server {
     pub settings: Value,
     pub polls: u64,
     pub trace: Vec<String>,
+    /// batch mode: messages sent back-to-back are admitted as soon as a slot is free (the default
+    /// choice), as tower-lsp's read loop does; otherwise admission has the lowest priority
+    pub admit_first: bool,
 }
 
 fn noop_waker() -> Waker {
@@ -157,6 +160,7 @@ impl Server {
             settings,
             polls: 0,
             trace: vec![],
+            admit_first: false,
         }
     }
 
@@ -250,6 +254,9 @@ impl Server {
 
     pub fn enabled(&self) -> Vec<Event> {
         let mut v = vec![];
+        if self.admit_first && !self.admit_queue.is_empty() && self.in_flight() < 4 {
+            v.push(Event::Admit);
+        }
         if let Some(t) = self.ready.front() {
             v.push(Event::Poll(*t));
         }
@@ -259,7 +266,7 @@ impl Server {
         for h in &self.held {
             v.push(Event::Answer(h.id));
         }
-        if !self.admit_queue.is_empty() && self.in_flight() < 4 {
+        if !self.admit_first && !self.admit_queue.is_empty() && self.in_flight() < 4 {
             v.push(Event::Admit);
         }
         v
@@ -474,7 +481,10 @@ impl World {
         format!("file://{}", self.doc_path(name).to_string_lossy())
     }
     pub fn cleanup(&self) {
-        let _ = std::fs::remove_dir_all(&self.root);
+        // under the syscall monitor the harness's own deletions would only add noise
+        if std::env::var("HV_KEEP_WORLDS").is_err() {
+            let _ = std::fs::remove_dir_all(&self.root);
+        }
     }
 }
 
